@@ -82,6 +82,9 @@ def run_check(pid, tier, seed, keep=False):
     mod = importlib.import_module("props." + pid.lower())
     built = mod.build(tier, seed)
     programs = built["programs"]
+    if os.environ.get("VERIF_ONLY"):      # debugging aid: restrict to some program modules
+        keep_names = set(os.environ["VERIF_ONLY"].split(","))
+        programs = [p for p in programs if p.name in keep_names]
     features = tuple(built.get("features", ("derive",)))
     stubbing = bool(built.get("stubbing", False))
     htimeout = int(built.get("harness_timeout", 600 if tier == "quick" else 2400))
